@@ -58,6 +58,10 @@ func Classify(d *Decls, ast *Node, argv []string) Classified {
 		cl.Unclaimed = "fold-eq"
 		return cl
 	}
+	if HasDashResidue(d, argv) {
+		cl.Unclaimed = "dash-residue"
+		return cl
+	}
 	ideal := &Ref{D: d}
 	v := ideal.Run(ast, argv)
 	cl.Accept, cl.MaxLive, cl.Skips, cl.Work = v.Accept, ideal.MaxLive, ideal.Skips, ideal.Work
